@@ -170,9 +170,9 @@ func VerifFxDatetime() {
 	c := dtCases[ci]
 	det, rep := -1, 0
 	if verifnd.Param("CROSS", 0) == 0 {
-		det, rep = ci, ci%3
+		det, rep = ci, ci%5
 	} else {
-		rep = verifnd.Choice(3)
+		rep = verifnd.Choice(5)
 	}
 	var val any = c.v
 	dt := ast.Int
@@ -180,8 +180,11 @@ func VerifFxDatetime() {
 	case 1:
 		val, dt = fxStrFormOf(c.v), ast.String
 	case 2:
-		verifnd.Assume(c.v < 1<<53)
 		val, dt = float64(c.v), ast.Float
+	case 3: // a float with a fraction: the timestamp is its integer part
+		val, dt = float64(c.v)+0.75, ast.Float
+	case 4:
+		val, dt = float64(c.v)+0.25, ast.Float
 	}
 	m, arg, key, pre, src := tmSubject(val, dt, dt == ast.String, det)
 	pt := fxNewPoint(m)
